@@ -56,13 +56,13 @@ func flip(b []byte, i int) []byte {
 }
 
 type mresult struct {
-	coq           string
-	t             *tb
-	violations    []string
-	stats         []string
-	accepted      int
-	nontrivial    bool
-	panicked      string
+	coq        string
+	t          *tb
+	violations []string
+	stats      []string
+	accepted   int
+	nontrivial bool
+	panicked   string
 }
 
 func inList(tx []byte, txs [][]byte) bool {
@@ -254,7 +254,9 @@ func alterations(r *prng.R, txs [][]byte, root []byte, ps []*proofJ, i int, all 
 			}), root, tx)
 		},
 		func() { add("aunts-emptied", mod(func(p *proofJ) { p.Aunts = nil; p.Total = n + 1 }), root, tx) },
-		func() { add("leafhash-bitflip", mod(func(p *proofJ) { p.LeafHash = flip(p.LeafHash, r.Intn(256)) }), root, tx) },
+		func() {
+			add("leafhash-bitflip", mod(func(p *proofJ) { p.LeafHash = flip(p.LeafHash, r.Intn(256)) }), root, tx)
+		},
 		func() {
 			// leaf hash := hash of the transaction (one hashing level skipped)
 			add("leafhash=txhash", mod(func(p *proofJ) { h := newRec().H(tx); p.LeafHash = h }), root, tx)
@@ -283,7 +285,9 @@ func alterations(r *prng.R, txs [][]byte, root []byte, ps []*proofJ, i int, all 
 			raw := encodeJ(g)
 			qs = append(qs, MQuery{Alter: "proof-truncated-cbor", Raw: raw[:len(raw)-1-r.Intn(len(raw)-1)], Root: root, Tx: tx})
 		},
-		func() { qs = append(qs, MQuery{Alter: "proof-garbage", Raw: r.Bytes(1 + r.Intn(40)), Root: root, Tx: tx}) },
+		func() {
+			qs = append(qs, MQuery{Alter: "proof-garbage", Raw: r.Bytes(1 + r.Intn(40)), Root: root, Tx: tx})
+		},
 	}
 	if all {
 		for _, f := range cand {
